@@ -236,6 +236,8 @@ class Folder:
                 raise NotFoldable(f"method {e.func.attr} on a non-string")
             if isinstance(e.func, ast.Name) and not e.keywords or isinstance(e.func, ast.Name) and e.func.id in self.functions:
                 name = e.func.id
+                if name == 'map' and len(e.args) == 2 and isinstance(e.args[0], ast.Name) and e.args[0].id in self.functions and 'map' not in self.functions:
+                    return [self.call(e.args[0].id, x) for x in self._iter(self.expr(e.args[1], env))]
                 args = [self.expr(a, env) for a in e.args]
                 kwargs = {k.arg: self.expr(k.value, env) for k in e.keywords}
                 if name in self.functions:
